@@ -390,7 +390,45 @@ func ruleDeclaredSizes(p *Prog, r *Report) {
 		key := rule + ":sml.parseDataItemSize:forms"
 		atoi := callSites(fn, "strconv.Atoi")
 		idx := callSites(fn, "strings.Index")
-		if len(atoi) != 3 || len(idx) != 1 {
+		// by evaluation first: the accepted token bound to each size form
+		ttSize, okT := smlConst(p, "tokenTypeDataItemSize")
+		evaluated := okT
+		var wrong []string
+		for _, c := range []struct {
+			text     string
+			min, max int64
+		}{{"[5]", 5, 5}, {"[0]", 0, 0}, {"[12]", 12, 12}, {"[2..7]", 2, 7}, {"[12..345]", 12, 345}, {"[2..]", 2, -1}, {"[..7]", 0, 7},
+			{"[010]", 10, 10}, {"[08..09]", 8, 9}, {"[7..2]", 7, 2}} {
+			if !evaluated {
+				break
+			}
+			in := NewInterp(p)
+			tok := Val{K: KAgg, S: "tok", Agg: map[string]cell{".typ": {V: int64Val(ttSize)}, ".val": {V: strVal(c.text)}}}
+			in.Bind = func(v ssa.Value, fr *frame) (Val, bool) {
+				if call, ok := v.(*ssa.Call); ok && fr.fn == fn {
+					if sc := call.Common().StaticCallee(); sc != nil && sc.Name() == "accept" {
+						return Val{K: KTuple, Elems: []Val{tok, boolVal(true)}}, true
+					}
+				}
+				return Val{}, false
+			}
+			out := in.Run(fn, defaultArgs(fn), nil)
+			rets := out.Frame.ReturnVals()
+			if len(in.Stuck) > 0 || out.CanPanic || len(rets) != 1 || len(rets[0]) != 3 || rets[0][1].K != KInt || rets[0][2].K != KInt {
+				evaluated = false
+				break
+			}
+			if rets[0][1].I.Int64() != c.min || rets[0][2].I.Int64() != c.max {
+				wrong = append(wrong, fmt.Sprintf("the size %s yields the bounds (%s, %s), expected (%d, %d)", c.text, rets[0][1], rets[0][2], c.min, c.max))
+			}
+		}
+		if evaluated {
+			if len(wrong) > 0 {
+				r.bad(rule, key, p.Pos(fn.Pos()), strings.Join(firstN(wrong, 4), "; "))
+			} else {
+				r.ok(rule, key, p.Pos(fn.Pos()), "evaluated on ten size tokens: [n] sets both bounds to n, [a..b] sets (a, b), [a..] leaves the upper bound open (-1), [..b] starts at 0; the numbers are read as decimals")
+			}
+		} else if len(atoi) != 3 || len(idx) != 1 {
 			r.unk(rule, key, p.Pos(fn.Pos()), fmt.Sprintf("expected three strconv.Atoi calls and one strings.Index call, found %d and %d", len(atoi), len(idx)))
 		} else {
 			var bad []string
@@ -890,6 +928,14 @@ func asciiPrintsReadable(p *Prog, fn *ssa.Function) (detail string, decided, goo
 		values = append(values, string(rune(c)))
 	}
 	values = append(values, `a"b`, "ab\ncd", `""`, "a b", "\x00\x7f", `x"`, `"x`, "tab\there", "\r\n", "a\"\"b", "~}|{")
+	// every character after each kind of predecessor (printable, control,
+	// double quote) and before a printable one: the printer's only state is
+	// whether a quoted run is open, so these cover its transitions
+	for _, prefix := range []string{"a", "\n", `"`} {
+		for c := 0; c < 128; c++ {
+			values = append(values, prefix+string(rune(c))+"z")
+		}
+	}
 	var bad []string
 	for _, v := range values {
 		in := NewInterp(p)
@@ -911,5 +957,5 @@ func asciiPrintsReadable(p *Prog, fn *ssa.Function) (detail string, decided, goo
 	if len(bad) > 0 {
 		return strings.Join(firstN(bad, 4), "; "), true, false
 	}
-	return fmt.Sprintf("evaluated on each of the 128 ASCII characters and %d mixed strings, the printed text read by the SML rules (quoted runs ending at the next '\"' without line breaks, number codes) gives back the value", len(values)-128), true, true
+	return fmt.Sprintf("evaluated on each of the 128 ASCII characters alone, on each of them after a printable character, a control character and a double quote, and on %d mixed strings, the printed text read by the SML rules (quoted runs ending at the next '\"' without line breaks, number codes) gives back the value", len(values)-128-3*128), true, true
 }
